@@ -162,7 +162,7 @@ func (p *BLSSignature) Signature() (*blsu.Signature, error) {
 }
 
 func ViewSignature(sig *BLSSignature) *BLSSignatureView {
-	v, _ := BLSSignatureType.Deserialize(codec.NewDecodingReader(bytes.NewReader(sig[:]), 48))
+	v, _ := BLSSignatureType.Deserialize(codec.NewDecodingReader(bytes.NewReader(sig[:]), 96))
 	return &BLSSignatureView{v.(*BasicVectorView)}
 }
 
